@@ -70,7 +70,7 @@ META = {
 }
 PLAN = {
     "quick": {"shards": 16, "examples": 128, "max_stmts": 12, "max_funcs": 2, "shrink_sigs": 2, "shrink_seconds": 20,
-              "shrink_calls": 60},
+              "shrink_calls": 60, "timeout": 3000},  # hard limit only; ~1 min on an idle 16-core machine
     "thorough": {"shards": 16, "examples": 12000, "timeout": 3300, "max_stmts": 25, "max_funcs": 3, "shrink_sigs": 4,
                  "shrink_seconds": 120, "shrink_calls": 600},
 }
@@ -173,7 +173,7 @@ def _tmpl_cases() -> st.SearchStrategy:
     def call2(target: str, two: st.SearchStrategy, *more: st.SearchStrategy) -> st.SearchStrategy:
         return st.tuples(two, *more).map(lambda a: {"target": target, "kind": "func", "args": [*a[0], *a[1:]]})
 
-    ops = st.integers(0, 5)
+    ops = st.integers(0, 5).map(lambda v: {"t": "int", "v": v})
     one = V.choice(
         call2("t_cmp", pair, ops), call2("t_cmp", pair, ops), call2("t_cmp_while", pair, ops), call2("t_chain", pair, num),
         call2("t_cmp_expr", pair, ops),
